@@ -242,3 +242,92 @@ def k3b(ctx, kr):
     kr.exhaustive = True
 
 KERNELS = [k3a, k3b, k4]
+
+# ---------------------------------------------------------------------------------------------- K2 based integer literal texts
+_BASES = {'try_hex': ('16#', 16, '0123456789ABCDEF'), 'try_octal': ('8#', 8, '01234567'), 'try_binary': ('2#', 2, '01'), 'new': ('', 10, '0123456789')}
+
+def _k2_job(job):
+    fn, n = job[:2]; sep = len(job) < 3         # a third element (filler digit): long digit strings around the u128 limit = 2 symbolic leading digits + concrete filler digits, no underscores
+    ctx = _CTX; part = Part()
+    P = ctx.program()
+    key = [k for k in P.items if k[0] == 'ironplc-dsl' and re.fullmatch(r'common::<impl at [^>]*>::' + fn, k[1]) and re.search(r'\bInteger\b', P.items[k].header) and 'SignedInteger' not in P.items[k].header]
+    if len(key) != 1: part.inconc('Integer::%s: %d candidates' % (fn, len(key))); return part
+    prefix, base, alphabet = _BASES[fn]
+    M = Machine(P); st = {}
+    def entry(M):
+        cs = []
+        for i in range(n):
+            if not sep and i >= 2: cs.append(ord(job[2])); continue
+            b = M.fresh_bv('c%d' % i, 8)
+            allowed = [b == ord(ch) for ch in alphabet] + ([b == 95] if i > 0 and sep else [])
+            M.assume(z3.Or(allowed)); cs.append(b)
+        st['c'] = cs
+        args = [Ref(Cell(Str([ord(ch) for ch in prefix] + cs)))]
+        if fn == 'new': args.append(Agg('SourceSpan', [0, 0, Opaque('file')]))
+        return M.call_fn(key[0], args)
+    def on_path(M, pr):
+        part.paths += 1
+        if pr.inconclusive: part.inconc(pr.inconclusive); return
+        s = z3.Solver(); s.add(*pr.pc); s.set('timeout', 60000)
+        part.nontrivial += 1
+        VW = 128 + 8 * n                          # no wrap in the reference value
+        v = z3.BitVecVal(0, VW)
+        for b in st['c']:
+            if isinstance(b, int): v = v * base + int(chr(b), 16); continue
+            d = z3.If(z3.ULE(b, 57), z3.ZeroExt(VW - 8, b - 48), z3.ZeroExt(VW - 8, b - 55))
+            v = z3.If(b == 95, v, v * base + d) if sep else v * base + d
+        fits = z3.ULT(v, z3.BitVecVal(1 << 128, VW))
+        def lit(m): return prefix + ''.join(chr(x if isinstance(x, int) else m.eval(x, True).as_long()) for x in st['c'])
+        def report(role, what, extra):
+            s.push(); s.add(extra)
+            t1 = time.time(); r = s.check(); part.solver_s += time.time() - t1; part.queries += 1
+            if r == z3.sat:
+                L = lit(s.model()); part.add(role, 'integer text %s: %s' % (L, what), {'text': L}, ('based_integer', (L, base)))
+            elif r == z3.unknown: part.inconc('solver unknown')
+            s.pop()
+        if pr.panic: report('C09/K2/panic/' + fn, 'Integer::%s panics: %s' % (fn, pr.panic.msg[:50]), z3.BoolVal(True)); return
+        res = pr.result
+        if res.disc != 0: report('C09/K2/valid-rejected/' + fn, 'a literal matching the lexer pattern whose value fits 128 bits is rejected', fits); return
+        got = [x for x in res.f[0].f if not isinstance(x, (Agg, Opaque))]
+        val = res.f[0].f[1] if len(res.f[0].f) > 1 else None
+        report('C09/K2/value-altered/' + fn, 'the value read differs from the digits written (underscores are separators only)', z3.ZeroExt(VW - 128, tobv(val, 128)) != v)
+        if len(part.samples) < 1: part.samples.append({'constructor': fn, 'chars': n})
+        if len(part.validate) < 1:
+            r = s.check()
+            if r == z3.sat: part.validate.append(('based_integer', (lit(s.model()), base)))
+    M.explore(entry, on_path)
+    part.queries += M.stats['smt']; part.encoded = set(M.encoded); part.models = set(M.models_used)
+    return part
+
+@replay_factory('based_integer')
+def _replay_based_integer(L, base):
+    def rp(ctx):
+        src = 'PROGRAM p\nVAR\n  x : DINT;\nEND_VAR\n  x := %s;\nEND_PROGRAM\n' % L
+        r = ctx.replay({'cmd': 'parse', 'source': src})
+        if 'panic' in r: return True, r
+        body = L.split('#')[-1].replace('_', '')
+        want = int(body, base)
+        if not r.get('ok'): return True, {'literal': L, 'rejected': r.get('diag')}
+        m = re.search(r'Integer \{ span: [^}]*\}, value: (\d+)', r['debug'])
+        got = int(m.group(1)) if m else None
+        return got != want, {'literal': L, 'parsed': got, 'expected': want}
+    return rp
+
+@kernel('K2 dsl.based_integer_texts')
+def k2(ctx, kr):
+    global _CTX
+    _CTX = ctx
+    ns = [1, 3] if ctx.tier == 'quick' else [1, 2, 3, 4, 5]
+    jobs = [(fn, n) for fn in _BASES for n in ns]
+    # around the u128 limit: one digit fewer than / as many as / one more than the longest value that can fit, no separators
+    for fn, lim in (('try_hex', 32), ('try_octal', 43), ('try_binary', 128), ('new', 39)):
+        jobs += [(fn, k, fill) for k in (lim, lim + 1) for fill in ('0', _BASES[fn][2][-1])]
+    kr.bounds = 'Integer::{new, try_hex, try_octal, try_binary} on texts of %s characters after the base prefix, each a symbolic digit of the base or an underscore (first a digit); plus texts of 32/33 hex, 43/44 octal, 128/129 binary, 39/40 decimal digits (the u128 limit): two symbolic leading digits followed by all-zero or all-maximal digits' % ns
+    for part in par_map(_k2_job, jobs): merge_part(kr, part)
+    P = ctx.program()
+    kr.functions = fn_paths(P, getattr(kr, '_enc', set()))
+    kr.assumptions = ['str::parse::<u128> / u128::from_str_radix by contract; reference: positional value of the digits with underscores ignored']
+    kr.exhaustive = True
+    kr.outside = ['digit strings longer than one digit past the u128 limit; separators and arbitrary digits in long digit strings']
+
+KERNELS = [k3a, k2, k3b, k4]
